@@ -21,7 +21,7 @@ RULE = ("case = name / ARN string or (state machine name, execution name, region
         "back-stop sites; thorough: random names up to length 81 over the full alphabet. non-trivial = name with a non-alphanumeric accepted character, or a derivation site "
         "other than the record; distinct by the string / scenario")
 ASSUMPTIONS = ["'accepted' means accepted by the real CreateStateMachine/StartExecution handlers (HTTP 200)", "execution names are unique per world"]
-FLOORS = {"same_name_twin_machines": 30, "evaluations": 1500, "names_judged": 250, "accepted_names": 60, "rejected_names": 150, "arn_roundtrips": 1000, "engine_level_runs": 80, "derivation_sites_compared": 500,
+FLOORS = {"site:child-execution": 20, "prefix_named_machines": 30, "same_name_twin_machines": 30, "evaluations": 1500, "names_judged": 250, "accepted_names": 60, "rejected_names": 150, "arn_roundtrips": 1000, "engine_level_runs": 80, "derivation_sites_compared": 500,
           "nontrivial": 300, "site:restart-recreated-record": 10, "site:express": 10, "site:other-region": 10}
 SHARDS = {"quick": 16, "thorough": 16}
 TECHNIQUE = "round-trip contracts on arn.py + REST acceptance oracle + cross-surface identifier monitor over real executions (incl. restart recovery and back-stop)"
@@ -140,10 +140,67 @@ def check_names(ctx):
 GOOD_NAMES = ["m", "my-machine", "a_b", "x.y", "A1", "9", "m-", "_", "a.b.c", "x" * 80, "é", "名前", "a+b", "a=b", "a@b", "(x)", "a!b", "it's"]
 
 
+def child_execution_site(ctx, rng, k, mname, ename):
+    """Executions started by a startExecution Task: the child's ARN is minted from the CHILD state machine's ARN (region, account, name),
+    whatever region the Task's Resource ARN is written for (the documented form has none), and every surface of the child names the child."""
+    res_region = rng.choice(["", "local", "us-east-1"])
+    child_region = rng.choice(["local", "eu-west-1", "local"])
+    form = rng.choice(["startExecution", "startExecution.sync", "startExecution.sync:2"])
+    child_type = rng.choice(["STANDARD", "STANDARD", "EXPRESS"]) if form == "startExecution" else "STANDARD"
+    restart = form != "startExecution" and rng.random() < 0.4
+    ctx.evaluation(); ctx.count("engine_level_runs"); ctx.count("site:child-execution")
+    case = dict(site="child-execution", child_machine=mname, child_execution=ename, resource_region=res_region, child_region=child_region, form=form, child_type=child_type, restart=restart)
+    ctx.nontrivial(case)
+    with World(seed=ctx.seed) as w:
+        e = next(iter(w.engines.values()))
+        csm = "arn:aws:states:%s:%s:stateMachine:%s" % (child_region, ACCOUNT, mname)
+        rec = lambda arn, name, d, t: {"creationDate": w.clock.now, "definition": d, "name": name, "roleArn": ROLE, "stateMachineArn": arn, "updateDate": w.clock.now,
+                                       "status": "ACTIVE", "type": t, "loggingConfiguration": {"level": "OFF"}}
+        e.se.asl_store[csm] = rec(csm, mname, F.chain([("C1", F.T("echo")), ("C2", F.W(2))]), child_type)
+        psm = "arn:aws:states:local:%s:stateMachine:parent" % ACCOUNT
+        call = {"Type": "Task", "Resource": "arn:aws:states:%s::states:%s" % (res_region, form),
+                "Parameters": {"StateMachineArn": csm, "Input": {"x": 1}, "Name": ename}, "ResultPath": "$.r", "End": True}
+        e.se.asl_store[psm] = rec(psm, "parent", {"StartAt": "Call", "States": {"Call": call}}, "STANDARD")
+        beh = __import__("lsfverif.gen.machines", fromlist=["worker_behaviour"]).worker_behaviour(dict(F.FUNCS))
+        for fn in F.FUNCS:
+            w.add_worker(fn, beh)
+        pe = w.start_event(psm, "pe", {"k": 1})
+        if restart:
+            w.run(until=lambda world: any(wk.requests for wk in world.workers.values()))
+            w.restart_engine("i1")
+        w.run()
+        want_ex = csm.replace(":stateMachine:", ":execution:") + ":" + ename
+        seen = set()
+        for n in w.notifications:
+            d = n["body"]["detail"]
+            if d["name"] == ename or d["executionArn"] == want_ex:
+                seen.add((d["stateMachineArn"], d["name"], d["executionArn"], n["subject"].rsplit(".", 1)[0], n["body"]["resources"][0]))
+        ctx.count("derivation_sites_compared", len(seen))
+        if not seen:
+            ctx.violation("child-execution-left-no-notification", dict(case), None)
+        for v in seen:
+            if v != (csm, ename, want_ex, csm, want_ex):
+                ctx.violation("identifier-derived-differently:child-notification", dict(case, expected=[csm, ename, want_ex], derived=list(v)), None)
+        st, out, err, t = w.outcome(pe)
+        r = (out or {}).get("r") if isinstance(out, dict) else None
+        got = (r or {}).get("executionArn") or (r or {}).get("ExecutionArn")
+        if st == "SUCCEEDED" and got != want_ex:
+            ctx.violation("identifier-derived-differently:launching-task-result", dict(case, expected=want_ex, result=r), None)
+        if child_type == "STANDARD":
+            eng = next(iter(w.engines.values()))
+            crec = eng.se.executions.get(want_ex)
+            if not crec or crec.get("stateMachineArn") != csm:
+                others = [k2 for k2 in eng.se.executions.keys() if k2.endswith(":" + ename)]
+                ctx.violation("identifier-derived-differently:child-record", dict(case, expected=want_ex, record=dict(crec) if crec else None, records_with_that_name=others), None)
+            code, b = w.api("ListExecutions", {"stateMachineArn": csm})
+            if code != 200 or not any(x["executionArn"] == want_ex for x in b.get("executions", [])):
+                ctx.violation("execution-not-listed-under-its-state-machine", dict(case, listed=b), None)
+
+
 def engine_level(ctx, k):
     rng = ctx.rng("eng", k)
     mname, ename = rng.choice(GOOD_NAMES), rng.choice(GOOD_NAMES)
-    site = ["plain", "express", "restart-recreated-record", "other-region", "backstop", "plain"][k % 6]
+    site = ["plain", "express", "restart-recreated-record", "other-region", "backstop", "plain", "child-execution", "child-execution"][k % 8]
     typ = "EXPRESS" if site == "express" else "STANDARD"
     region = "eu-west-1" if site == "other-region" else "local"
     asl = F.chain([("P0", F.P()), ("A", F.T("echo")), ("B", F.W(2)), ("C", F.P())])
@@ -151,6 +208,8 @@ def engine_level(ctx, k):
         # a caught fan-out failure with a live sibling leaves join state behind; the back-stop later synthesises an event from the ARN
         asl = {"StartAt": "Fan", "States": {"Fan": {"Type": "Parallel", "Branches": [F.chain([("X", {"Type": "Fail", "Error": "E", "Cause": "c"})]), F.chain([("Y", F.T("slow3")), ("Y2", F.W(1))])],
                                                     "Catch": [{"ErrorEquals": ["States.ALL"], "Next": "R", "ResultPath": "$.e"}], "Next": "R"}, "R": F.P(End=True)}}
+    if site == "child-execution":
+        return child_execution_site(ctx, rng, k, mname, ename)
     ctx.evaluation(); ctx.count("engine_level_runs"); ctx.count("site:" + site)
     case = dict(machine=mname, execution=ename, site=site, type=typ, region=region)
     ctx.nontrivial(case)
@@ -226,10 +285,20 @@ def engine_level(ctx, k):
                 sites.setdefault("DescribeStateMachineForExecution", set()).add((b["stateMachineArn"], ename, ex))
             else:
                 ctx.violation("DescribeStateMachineForExecution-fails-for-recorded-execution", dict(case, code=code, body=b, record=dict(rec)), None)
+            # a state machine whose name merely BEGINS with this one's name, with an execution of its own: identifiers are compared as wholes
+            if len(mname) <= 70:
+                sm_long = "arn:aws:states:%s:%s:stateMachine:%s" % (region, ACCOUNT, mname + "-eu")
+                e.se.asl_store[sm_long] = dict(e.se.asl_store[sm], stateMachineArn=sm_long, name=mname + "-eu", type="STANDARD", definition=F.chain([("Q", F.P())]))
+                c2, b2 = w.api("StartExecution", {"stateMachineArn": sm_long, "name": "other", "input": "{}"})
+                w.run()
+                ctx.count("prefix_named_machines")
             code, b = w.api("ListExecutions", {"stateMachineArn": sm})
             listed = [x for x in (b.get("executions", []) if code == 200 else []) if x["executionArn"] == ex]
             if not listed:
                 ctx.violation("execution-not-listed-under-its-state-machine", dict(case, record=dict(rec)), None)
+            foreign = [x for x in (b.get("executions", []) if code == 200 else []) if x.get("stateMachineArn") != sm]
+            if foreign:
+                ctx.violation("execution-of-another-state-machine-listed", dict(case, stateMachineArn=sm, foreign=foreign), None)
         elif typ == "STANDARD":
             ctx.violation("no-record-for-standard-execution", dict(case), None)
         want = (sm, ename, ex)
@@ -247,7 +316,7 @@ def engine_level(ctx, k):
 def run(ctx):
     check_arn_functions(ctx)
     check_names(ctx)
-    for k in range(ctx.pick(120, 20000)):
+    for k in range(ctx.pick(160, 20000)):
         if ctx.mine(k):
             engine_level(ctx, k)
 
